@@ -30,6 +30,14 @@ UniversalOK(e) ==
          /\ Oriented(C) /\ \A i \in 0..1, d \in Chambers(C) : V(C, i, d) = 1
          /\ Q.x = 0 /\ Q.nbnd = 0
          /\ k[1] > 0 /\ C.n * k[1] = S.n * 4 * k[2])     \* |C| = |S| * 4 / K(S)
+\* one entry per conjugacy class of subgroups: the number of covers with each sheet number belongs to the GROUP, so it is
+\* the same for every renumbering of the base (verified with the explicit permutation) and for its dual (verified: Dual(S))
+CountsOK(e) == LET S == e.in IN
+   /\ CompleteSym(S) /\ Connected(S) /\ Len(e.counts) = e.k /\ e.counts[1] = 1
+   /\ \A j \in 1..Len(e.variants) : LET w == e.variants[j] IN
+         /\ "panic" \notin DOMAIN w
+         /\ IF w.how = "dual" THEN w.sym = Dual(S) ELSE IsRenumbering(S, w.sym, w.perm)
+         /\ w.counts = e.counts
 Next == /\ l <= Len(Rec)
         /\ ("panic" \notin DOMAIN Rec[l] /\
             CASE Rec[l].ev = "oriented_cover" -> OrientedCoverOK(Rec[l])
@@ -37,6 +45,7 @@ Next == /\ l <= Len(Rec)
               [] Rec[l].ev = "subgroup_cover" -> SubgroupCoverOK(Rec[l])
               [] Rec[l].ev = "deep_cover" -> CoverOK(Rec[l].out, Rec[l].in) /\ Rec[l].out.n <= Rec[l].k * Rec[l].in.n
               [] Rec[l].ev = "universal_cover" -> UniversalOK(Rec[l])
+              [] Rec[l].ev = "cover_counts" -> CountsOK(Rec[l])
               [] OTHER -> FALSE) = TRUE
         /\ l' = l + 1
 Spec == Init /\ [][Next]_l
